@@ -10,6 +10,7 @@ from fractions import Fraction
 from . import e2_formula as F
 from . import c14_sem as G
 from .core import AnchorError, Unsupported
+from .e1_srcmodel import dotted, parent
 from .e2_eval import is_unknown
 
 N2P = "pyyeti/nastran/n2p.py"
@@ -655,9 +656,34 @@ def _row_selections(v):
     return out
 
 
+def _order_irrelevant(st):
+    """an `if` whose arms neither leave the function / loop nor order, select or rebind the table: which arm runs cannot change what the
+    ordering steps see, so the regime is not split there"""
+    for arm in (st.body, st.orelse):
+        for x in arm:
+            for n in ast.walk(x):
+                if isinstance(n, (ast.Return, ast.Raise, ast.Break, ast.Continue, ast.FunctionDef)):
+                    return False
+                if isinstance(n, ast.Call):
+                    d = dotted(n.func) or (n.func.attr if isinstance(n.func, ast.Attribute) else "")
+                    if d.split(".")[-1] in ("mat_intersect", "mkdofpv", "reset_index") or not d:
+                        return False
+                if isinstance(n, ast.Name) and isinstance(n.ctx, ast.Store) and n.id in ("uset", "usetdof"):
+                    return False
+    return True
+
+
 def r4_rbe3_order(ctx):
     fn = ctx.src.func(N2P, "formrbe3")
-    paths = [ev for ev in G.explore(ctx, N2P, fn, inline=_inline(ctx)) if not ev.raised]
+
+    def truth(v, node, ev):
+        st = node
+        while st is not None and not isinstance(st, ast.stmt):
+            st = parent(st)
+        if isinstance(st, ast.If) and _order_irrelevant(st):
+            return True
+        return None
+    paths = [ev for ev in G.explore(ctx, N2P, fn, truth=truth, inline=_inline(ctx)) if not ev.raised]
     if not paths:
         raise AnchorError("formrbe3: no regime returns")
     sites = {}
